@@ -311,7 +311,6 @@ class SimSemLock:
         else:
             if k.value >= self.maxvalue:
                 raise ValueError("semaphore or lock released too many times")
-        w.sched_point()
         k.value += 1
         w.sem_release_log.append((w.steps, k.name, w.cur.tid))
         me = (w.cur.proc.pid, w.cur.name)
@@ -324,7 +323,7 @@ class SimSemLock:
         if w.atomic_depth and w.atomic_owner is w.cur:
             w.atomic_depth -= 1
             w.atomic_owner = None
-            w.sched_point()
+        w.sched_point()        # right after the post: whoever waited for it (or polls it) may run first
 
     def __enter__(self):
         return self.acquire()
